@@ -431,15 +431,17 @@ def twin_call(d, Pm, substs=None):
             if outcome(ev2, Pm) != o0:
                 return per, [], 'nondeterministic'
         path, pa, pb = first_diff(o0, o1)
+        kind = diff_kind(path, o0, o1)
         leak = []
-        if len(per) > 1:
+        if len(per) > 1:        # which operand's hidden numbers alone produce this kind of difference
             for lab in sorted(per):
                 evl = sweep.execute(d, Pm, before=make_hook(s, Pm, only=lab))
-                if outcome(evl, Pm) != o0:
+                ol = outcome(evl, Pm)
+                if ol != o0 and diff_kind(first_diff(o0, ol)[0], o0, ol) == kind:
                     leak.append(lab)
         else:
             leak = sorted(per)
-        fails.append({'subst': s, 'path': path, 'a': pa, 'b': pb, 'kind': diff_kind(path, o0, o1),
+        fails.append({'subst': s, 'path': path, 'a': pa, 'b': pb, 'kind': kind,
                       'base': summary(o0), 'twin': summary(o1), 'leak_from': leak})
     return per, fails, ('warn-diff' if wdiff else 'ok')
 
@@ -499,6 +501,257 @@ def signature(desc, f):
 
 
 # ---------------------------------------------------------------------------------------
+# (b) compositions: expression programs over the core alphabet
+# ---------------------------------------------------------------------------------------
+N = 4
+LEAVES = [
+    {'cls': 'Scalar', 'kind': 'float', 'vals': [2.0, -1.0, 0.0, 3.0], 'mask': [0, 1, 0, 0]},
+    {'cls': 'Scalar', 'kind': 'float', 'vals': [0.5, 2.0, 2.0, -4.0], 'mask': [1, 0, 0, 1]},
+    {'cls': 'Scalar', 'kind': 'float', 'vals': [1.0, 0.25, 9.0, 0.0], 'mask': [0, 0, 1, 0],
+     'dt': {'vals': [1.0, -2.0, 0.5, 3.0], 'mask': [0, 1, 0, 0]}},
+    {'cls': 'Scalar', 'kind': 'float', 'vals': [4.0, 4.0, 4.0, 4.0], 'mask': True},
+    {'cls': 'Scalar', 'kind': 'float', 'vals': [-3.0, 5.0, 5.0, 1.0], 'mask': False},
+    {'cls': 'Scalar', 'kind': 'int', 'vals': [3, 0, -2, 1], 'mask': [0, 0, 1, 0]},
+    {'cls': 'Scalar', 'kind': 'int', 'vals': [0, 2, 1, 3], 'mask': [0, 1, 0, 1]},          # an index object
+    {'cls': 'Scalar', 'kind': 'int', 'vals': [1, 1, 0, 2], 'mask': [1, 0, 0, 0]},
+    {'cls': 'Boolean', 'kind': 'bool', 'vals': [1, 0, 1, 0], 'mask': [0, 0, 1, 1]},
+    {'cls': 'Vector3', 'kind': 'float', 'vals': [[1., 0., 0.], [0., 2., 0.], [1., 1., 1.], [0., 0., -3.]],
+     'mask': [0, 0, 1, 0]},
+    {'cls': 'Scalar', 'kind': 'float', 'vals': 2.5, 'mask': True},                          # shapeless, masked
+    {'cls': 'Pair', 'kind': 'int', 'vals': [[0, 1], [1, 0], [1, 1], [0, 0]], 'mask': [0, 1, 0, 0]},
+]
+
+
+def build_leaf(d, Pm):
+    c = getattr(Pm, d['cls'])
+    dt = {'float': np.float64, 'int': np.int64, 'bool': np.bool_}[d['kind']]
+    v = d['vals']
+    vals = np.array(v, dtype=dt) if isinstance(v, list) else v
+    m = d['mask']
+    mask = np.array(m, dtype=bool) if isinstance(m, list) else bool(m)
+    o = c(vals, mask)
+    if 'dt' in d:
+        o.insert_deriv('t', c(np.array(d['dt']['vals'], dtype=np.float64), np.array(d['dt']['mask'], dtype=bool)))
+    return o
+
+
+def _pickle_rt(Pm, x):
+    return pickle.loads(pickle.dumps(x))
+
+
+def _pickle_lossy(Pm, x):
+    y = x.copy()
+    y.set_pickle_digits(('single', 'single'), ('mean', 'mean'))
+    return pickle.loads(pickle.dumps(y))
+
+
+def _shrink_rt(Pm, x):
+    am = x.antimask
+    return x.shrink(am).unshrink(am)
+
+
+UNARY = {
+    'neg': lambda Pm, x: -x, 'abs': lambda Pm, x: abs(x), 'sqrt': lambda Pm, x: x.sqrt(), 'log': lambda Pm, x: x.log(),
+    'sin': lambda Pm, x: x.sin(), 'arccos': lambda Pm, x: x.arccos(), 'arcsin': lambda Pm, x: x.arcsin(),
+    'reciprocal': lambda Pm, x: x.reciprocal(), 'sq': lambda Pm, x: x ** 2, 'sign': lambda Pm, x: x.sign(),
+    'sum': lambda Pm, x: x.sum(), 'mean': lambda Pm, x: x.mean(), 'max': lambda Pm, x: x.max(), 'min': lambda Pm, x: x.min(),
+    'argmax': lambda Pm, x: x.argmax(), 'argmin': lambda Pm, x: x.argmin(), 'median': lambda Pm, x: x.median(),
+    'sort': lambda Pm, x: x.sort(), 'any': lambda Pm, x: x.any(), 'all': lambda Pm, x: x.all(),
+    'tvl_any': lambda Pm, x: x.tvl_any(), 'tvl_all': lambda Pm, x: x.tvl_all(), 'not': lambda Pm, x: x.logical_not(),
+    'as_int': lambda Pm, x: x.as_int(), 'as_float': lambda Pm, x: x.as_float(), 'as_bool': lambda Pm, x: x.as_boolean(),
+    'int': lambda Pm, x: x.int(), 'frac': lambda Pm, x: x.frac(),
+    'shrink_rt': _shrink_rt, 'shrink': lambda Pm, x: x.shrink(x.antimask), 'pickle': _pickle_rt, 'pickle_lossy': _pickle_lossy,
+    'str': lambda Pm, x: str(x), 'repr': lambda Pm, x: repr(x), 'builtin0': lambda Pm, x: x[0].as_builtin(),
+    'bool': lambda Pm, x: bool(x), 'clip01': lambda Pm, x: x.clip(0, 1), 'clip01_noremask': lambda Pm, x: x.clip(0, 1, remask=False),
+    'mw_eq0': lambda Pm, x: x.mask_where_eq(0, 1), 'mw_lt0': lambda Pm, x: x.mask_where_lt(0), 'mw_ne0_keep': lambda Pm, x: x.mask_where_ne(0, 7, remask=False),
+    'norm': lambda Pm, x: x.norm(), 'unit': lambda Pm, x: x.unit(), 'wod': lambda Pm, x: x.wod, 'd_dt': lambda Pm, x: x.d_dt,
+    'flip': lambda Pm, x: x[::-1], 'count_masked': lambda Pm, x: x.count_masked(), 'mvals_sum': lambda Pm, x: x.mvals.sum(),
+    'to_scalar0': lambda Pm, x: x.to_scalar(0), 'cumsum_like': lambda Pm, x: x + x.sum(), 'copy': lambda Pm, x: x.copy(),
+    'as_index_m': lambda Pm, x: x.as_index(masked=0) if isinstance(x, Pm.Scalar) else x.as_index(masked=0),
+    'as_builtin': lambda Pm, x: x.as_builtin(), 'hash_eq': lambda Pm, x: x == x, 'float0': lambda Pm, x: float(x[0]),
+}
+BINARY = {
+    'add': lambda Pm, x, y: x + y, 'sub': lambda Pm, x, y: x - y, 'mul': lambda Pm, x, y: x * y, 'truediv': lambda Pm, x, y: x / y,
+    'floordiv': lambda Pm, x, y: x // y, 'mod': lambda Pm, x, y: x % y, 'pow': lambda Pm, x, y: x ** y,
+    'eq': lambda Pm, x, y: x == y, 'ne': lambda Pm, x, y: x != y, 'lt': lambda Pm, x, y: x < y, 'le': lambda Pm, x, y: x <= y,
+    'booleq': lambda Pm, x, y: bool(x == y), 'tvl_eq': lambda Pm, x, y: x.tvl_eq(y), 'tvl_lt': lambda Pm, x, y: x.tvl_lt(y),
+    'tvl_and': lambda Pm, x, y: x.tvl_and(y), 'tvl_or': lambda Pm, x, y: x.tvl_or(y),
+    'and': lambda Pm, x, y: x & y, 'or': lambda Pm, x, y: x | y,
+    'maximum': lambda Pm, x, y: Pm.Scalar.maximum(x, y), 'minimum': lambda Pm, x, y: Pm.Scalar.minimum(x, y),
+    'stack': lambda Pm, x, y: Pm.Qube.stack(x, y), 'getitem': lambda Pm, x, y: x[y],
+    'getitem2d': lambda Pm, x, y: Pm.Qube.stack(x, x)[y],
+    'setitem': lambda Pm, x, y: _setitem(x, y), 'dot': lambda Pm, x, y: x.dot(y), 'cross': lambda Pm, x, y: x.cross(y),
+    'sep': lambda Pm, x, y: x.sep(y), 'mask_where': lambda Pm, x, y: x.mask_where(y.as_mask_where_nonzero()),
+    'mw_gt': lambda Pm, x, y: x.mask_where_gt(y.wod.without_mask() if False else 1.), 'from_scalars': lambda Pm, x, y: Pm.Vector.from_scalars(x, y, x),
+    'shrink_by': lambda Pm, x, y: x.shrink(y.antimask).unshrink(y.antimask), 'clip_by': lambda Pm, x, y: x.clip(None, y),
+    'where': lambda Pm, x, y: Pm.Scalar.as_scalar(x).mask_where(y < 1),
+}
+SMALL_UNARY = ['neg', 'sqrt', 'reciprocal', 'sum', 'mean', 'max', 'argmax', 'argmin', 'median', 'sort', 'any', 'all',
+               'shrink_rt', 'pickle', 'as_int', 'mw_eq0', 'clip01', 'str', 'int', 'min']
+SMALL_BINARY = ['add', 'mul', 'truediv', 'floordiv', 'eq', 'lt', 'tvl_eq', 'maximum', 'minimum', 'stack', 'getitem', 'booleq']
+
+
+def _setitem(x, y):
+    z = x.copy()
+    z[y] = z[0]
+    return z
+
+
+def prog_leaves(p):
+    if p[0] == 'leaf':
+        return [p[1]]
+    out = []
+    for c in p[1:]:
+        out.extend(prog_leaves(c))
+    return out
+
+
+def prog_depth(p):
+    return 0 if p[0] == 'leaf' else 1 + max(prog_depth(c) for c in p[1:])
+
+
+def eval_prog(p, leaves, Pm):
+    if p[0] == 'leaf':
+        return leaves[p[1]]
+    args = [eval_prog(c, leaves, Pm) for c in p[1:]]
+    f = UNARY[p[0]] if len(args) == 1 else BINARY[p[0]]
+    return f(Pm, *args)
+
+
+def run_prog(p, s, Pm):
+    """-> (outcome, hidden elements)"""
+    leaves = {i: build_leaf(LEAVES[i], Pm) for i in set(prog_leaves(p))}
+    seen = set()
+    nh = 0
+    for i in sorted(leaves):
+        nh += subst_qube(leaves[i], s, Pm, seen)
+    out = {}
+    with warnings.catch_warnings():
+        warnings.simplefilter('ignore')
+        try:
+            r = eval_prog(p, leaves, Pm)
+            out = {'ok': True, 'result': obs(r, Pm)}
+        except Exception as e:
+            out = {'ok': False, 'exc': tuple(lib.exc_family(e))}
+    out['after'] = []
+    return out, nh
+
+
+COMP_SUBST = ['zero', 'huge', 'oor', 'mixed', 'neg1']
+
+
+def twin_prog(p, Pm, substs=None):
+    """-> list of failure dicts for program p (empty = fine), status"""
+    o0, nh = run_prog(p, None, Pm)
+    if nh == 0:
+        return [], 'no-hidden'
+    fails = []
+    for s in (substs or COMP_SUBST):
+        o1, _ = run_prog(p, s, Pm)
+        if o1 != o0:
+            if run_prog(p, None, Pm)[0] != o0:
+                return [], 'nondeterministic'
+            path, pa, pb = first_diff(o0, o1)
+            fails.append({'subst': s, 'path': path, 'a': pa, 'b': pb, 'kind': diff_kind(path, o0, o1),
+                          'base': summary(o0), 'twin': summary(o1)})
+    return fails, ('raises' if not o0['ok'] else 'ok')
+
+
+def shrink_prog(p, Pm):
+    """the smallest sub-program that already disagrees on twins"""
+    for c in p[1:] if p[0] != 'leaf' else []:
+        if c[0] != 'leaf' and twin_prog(c, Pm)[0]:
+            return shrink_prog(c, Pm)
+    return p
+
+
+def prog_str(p):
+    if p[0] == 'leaf':
+        return 'L%d' % p[1]
+    return '%s(%s)' % (p[0], ', '.join(prog_str(c) for c in p[1:]))
+
+
+def comp_signature(p, f):
+    kids = [c[0] if c[0] != 'leaf' else 'leaf:%s:%s' % (LEAVES[c[1]]['cls'], LEAVES[c[1]]['kind']) for c in p[1:]]
+    exc = None
+    for k in ('twin', 'base'):
+        if f[k].startswith('raised'):
+            exc = f[k][7:]
+            break
+    return {'kind': 'comp', 'root': p[0], 'children': '+'.join(kids), 'diff': f['kind'], 'depth': prog_depth(p), 'exc': exc}
+
+
+def comp_worker(chunk):
+    Pm = P()
+    out = []
+    st = {}
+    for p in chunk:
+        try:
+            fails, status = twin_prog(p, Pm)
+        except Exception as e:          # the harness itself
+            fails, status = [], 'harness:' + type(e).__name__
+        st[status] = st.get(status, 0) + 1
+        if fails:
+            q = shrink_prog(p, Pm)
+            qf = twin_prog(q, Pm)[0] or fails
+            out.append((p, q, qf[0]))
+    return {'fail': out, 'stats': st}
+
+
+def depth1_programs(unary, binary, nleaves):
+    out = []
+    for u in unary:
+        for i in range(nleaves):
+            out.append([u, ['leaf', i]])
+    for b in binary:
+        for i in range(nleaves):
+            for j in range(nleaves):
+                out.append([b, ['leaf', i], ['leaf', j]])
+    return out
+
+
+def exhaustive_programs():
+    """all depth-1 programs over the full alphabet; depth 2 over the small alphabet:
+    u(any small depth-1), b(u(leaf), leaf), b(leaf, u(leaf))"""
+    n = len(LEAVES)
+    out = depth1_programs(sorted(UNARY), sorted(BINARY), n)
+    small1 = depth1_programs(SMALL_UNARY, SMALL_BINARY, n)
+    for u in SMALL_UNARY:
+        for q in small1:
+            out.append([u, q])
+    un1 = [q for q in small1 if len(q) == 2]
+    for b in SMALL_BINARY:
+        for q in un1:
+            for j in range(n):
+                out.append([b, q, ['leaf', j]])
+                out.append([b, ['leaf', j], q])
+    return out
+
+
+def random_program(rng, depth):
+    if depth == 0 or rng.random() < 0.15:
+        return ['leaf', rng.randrange(len(LEAVES))]
+    if rng.random() < 0.5:
+        return [rng.choice(sorted(UNARY)), random_program(rng, depth - 1)]
+    return [rng.choice(sorted(BINARY)), random_program(rng, depth - 1), random_program(rng, depth - 1)]
+
+
+def corpus_programs():
+    out = []
+    d = os.path.join(lib.VERIF, 'corpus', 'C03')
+    if os.path.isdir(d):
+        for f in sorted(os.listdir(d)):
+            if f.endswith('.json'):
+                try:
+                    c = json.load(open(os.path.join(d, f)))
+                    if 'prog' in c:
+                        out.append(c['prog'])
+                except Exception:
+                    pass
+    return out
+
+
+# ---------------------------------------------------------------------------------------
 # run
 # ---------------------------------------------------------------------------------------
 def run(ctx):
@@ -537,6 +790,39 @@ def run(ctx):
         ctx.count('sweep:' + k, v)
     ctx.evaluations += tot.get('twin-runs', 0) + tot.get('twinned', 0)
     ctx.log('sweep twins done: %s' % {k: v for k, v in tot.items() if not k.startswith('exempt:')})
+    # ---- (b) compositions ----
+    progs = corpus_programs()
+    if ctx.tier == 'thorough':
+        progs += exhaustive_programs()
+        progs += [random_program(ctx.rng, 3) for _ in range(20000)]
+    else:
+        ex = exhaustive_programs()
+        progs += [ex[i] for i in sorted(ctx.rng.sample(range(len(ex)), 6000))]
+        progs += [random_program(ctx.rng, 3) for _ in range(3000)]
+    ctx.log('compositions: %d programs' % len(progs))
+    cres = sweep.run_parallel(progs, comp_worker, chunk=500)
+    cst = {}
+    for res in cres:
+        for k, v in res['stats'].items():
+            cst[k] = cst.get(k, 0) + v
+        for p, q, f in res['fail']:
+            sig = comp_signature(q, f)
+            ctx.count('comp-disagreements')
+            key = json.dumps(sig, sort_keys=True, default=str)
+            if key in seen:
+                continue
+            seen.add(key)
+            ctx.fail(sig, {'prog': q, 'subst': f['subst'], 'found_in': p},
+                     {'program': prog_str(q), 'found_in': prog_str(p), 'first_difference': [f['path'], f['a'], f['b']],
+                      'untouched': f['base'], 'twin': f['twin']})
+    for k, v in sorted(cst.items()):
+        ctx.count('comp:' + k, v)
+    ntw = sum(v for k, v in cst.items() if k in ('ok', 'raises'))
+    ctx.evaluations += ntw * (1 + len(COMP_SUBST))
+    for p in progs:
+        if prog_depth(p) >= 1:
+            ctx.nontrivial.add(lib.case_hash(p))
+    ctx.log('compositions done: %s' % cst)
     ctx.exhaustive = (ctx.tier == 'thorough')
     return ctx.finish()
 
@@ -558,6 +844,16 @@ def replay(path):
             print('  untouched :', f['base'])
             print('  twin      :', f['twin'])
             print('  leak from :', f['leak_from'])
+            print('  first difference at %s [%s]:\n     %s\n     %s' % (f['path'], f['kind'], f['a'], f['b']))
+        bad = bool(fails)
+    if 'prog' in c:
+        print('program   :', prog_str(c['prog']))
+        print('leaves    :', {i: LEAVES[i] for i in set(prog_leaves(c['prog']))})
+        fails, st = twin_prog(c['prog'], Pm, substs=[c['subst']])
+        for f in fails:
+            print('  subst     :', f['subst'])
+            print('  untouched :', f['base'])
+            print('  twin      :', f['twin'])
             print('  first difference at %s [%s]:\n     %s\n     %s' % (f['path'], f['kind'], f['a'], f['b']))
         bad = bool(fails)
     print('property FAILS on this case' if bad else 'property holds on this case')
